@@ -213,7 +213,10 @@ pub fn parse_contracts(src: &str) -> Result<Contracts, String> {
             }
             "ghost" => {
                 let (pos, body) = rest.split_once(':').ok_or_else(|| format!("line {}: ghost begin:", ln))?;
-                if let Some(c) = pos.trim().strip_prefix("before ") {
+                if let Some(c) = pos.trim().strip_prefix("before_loop ") {
+                    let k: usize = c.trim().parse().map_err(|_| format!("line {}: loop ordinal", ln))?;
+                    fc.proof_points.push(ProofPoint { at: ProofAt::BeforeLoop(k), text: body.trim().to_string(), decl: true });
+                } else if let Some(c) = pos.trim().strip_prefix("before ") {
                     fc.proof_points.push(ProofPoint { at: ProofAt::BeforeCall(c.trim().to_string()), text: body.trim().to_string(), decl: true });
                 } else if let Some(c) = pos.trim().strip_prefix("after ") {
                     // ghost declarations (proof_decl!) right after each statement that calls <callee>: in scope for the rest of the block
